@@ -349,6 +349,14 @@ pub const ELEM_NAMES: &[&str] = &[
     "e\u{301}x", "ez", "e\u{301}", "\u{915}\u{94d}\u{937}", "\u{915}\u{92e}", "a\u{308}b", "ab\u{308}",
     // names that begin with a numeric character that is not an ASCII digit
     "\u{b2}x", "\u{bd}", "\u{663}a", "\u{2460}", "\u{2163}b",
+    // more than one colon (the local part starts after the first one)
+    "n:b:c", "a:b:id",
+    // pairs that collide under weak, popular hashes (31-polynomial: Aa/BB; FNV-1a 32: costarring/liquid)
+    "Aa", "BB", "NodeAa", "NodeBB", "costarring", "liquid",
+    // UTF-16 code-unit order differs from code-point order for these
+    "\u{10400}a", "\u{ff41}b", "\u{e000}c",
+    // the replacement character is a legal name character; lossy decoding maps any broken sequence onto it
+    "x\u{fffd}", "x\u{fffd}y",
     // names other vocabularies treat specially
     "br", "hr", "img", "meta", "html", "body", "script",
 ];
@@ -359,6 +367,7 @@ pub const ATTR_NAMES: &[&str] = &[
     "aпривет", "abcdeé", "é", "日本語", "a日本", "xmlnsé", "xmlns:é", "xml:é", "ÉCOLE", "école",
     "_", "__", "_.", "x:_", "_1", "a__b",
     "ab", "bc", "abc", "x", "i", "dx", "idx", "sid", "d",
+    "n:k:id", "Aa", "BB", "costarring", "liquid", "\u{10400}a", "\u{ff41}b", "k\u{fffd}", "xmlns:p", "xmlns:q", "xmlns:r",
 ];
 
 const TEXTS: &[&str] = &[
@@ -450,6 +459,12 @@ impl GenCfg {
                 &["a1", "a_1", "a"],
                 &["a", "b", "c", "ab", "bc", "abc"],
                 &["item", "items", "id", "sid", "i", "dx"],
+                &["Aa", "BB", "AaAa", "BBBB", "AaBB"],
+                &["NodeAa", "NodeBB", "costarring", "liquid"],
+                &["\u{10400}a", "\u{ff41}b", "\u{e000}c", "z"],
+                &["p:item", "q:item", "r:item", "item"],
+                &["x\u{fffd}", "x\u{fffd}y", "x"],
+                &["n:b:c", "b:c", "c", "n:c"],
             ];
             let g = *rng.pick(groups);
             for n in g {
@@ -597,8 +612,10 @@ fn long_len(rng: &mut Rng) -> usize {
 
 fn long_text(rng: &mut Rng) -> String {
     let n = long_len(rng);
-    let unit = *rng.pick(&["x", "ab ", "é", "&amp;", "\n "]);
-    unit.repeat(n / unit.len() + 1)
+    let unit = *rng.pick(&["x", "ab ", "é", "&amp;", "\n ", "日", "aé", "\u{10400}"]);
+    // a short ASCII lead-in shifts the multi-byte characters against every power-of-two offset
+    let lead = &"abc"[..rng.below(4)];
+    format!("{lead}{}", unit.repeat(n / unit.len() + 1))
 }
 
 fn value_for(rng: &mut Rng) -> (String, u8) {
@@ -623,6 +640,10 @@ pub fn inst(rng: &mut Rng, cfg: &GenCfg, sk: &Skel, budget: &mut usize) -> Elem 
         let (mut value, quote) = value_for(rng);
         if rng.pct(cfg.p_long) {
             value = long_text(rng);
+        }
+        if a.starts_with("xmlns") && rng.pct(80) {
+            // namespace names come from a tiny pool: several prefixes bound to the same name are the norm
+            value = rng.pick(&["urn:a", "urn:b", "http://example.org/ns"]).to_string();
         }
         e.attrs.push(Attr { name: a.clone(), value, quote });
     }
